@@ -3,6 +3,7 @@ from __future__ import annotations
 
 import math
 import random
+import zlib
 
 import jax
 import jax.numpy as jnp
@@ -119,7 +120,7 @@ def cases(tier, seed):
         if k[0] == 'diag':
             out.append(('accept', 'diag', k))
     for k in c13.cases(tier, seed):
-        if k[0] in ('move', 'ravel', 'reshape') and (len(k[1]) > 1 or tier == 'thorough' or hash(repr(k)) % 4 == 0):
+        if k[0] in ('move', 'ravel', 'reshape') and (len(k[1]) > 1 or tier == 'thorough' or zlib.crc32(repr(k).encode()) % 4 == 0):
             out.append(('accept', 'axes', k))
     out.append(('custom',))
     return out
